@@ -381,7 +381,7 @@ ADDENDA = {
     'C12': ' Objects are serialised again after the library changed them, the same JSON text is decoded twice with the first result changed in '
            'between, time fields use the library\'s own tzinfo class. Round 9: the same object serialised again after exactly ONE field changed (sequence number, log_id, extra_data, status, encoding, a parameter).',
     'C13': ' Exceptions raised by a correlator operation under an interleaving are observations (the check goes on to name the schedule). Regenerated obligation handle_response_step_order. Round 9: regenerated obligation send_data_step_order (request stored only after the drain); stray responses after failed transmissions.',
-    'C14': ' The by-the-next-request clause counts the bind request of a reconnect; exceptions raised under an interleaving are observations. Round 8: error responses without a body (SMPP 3.4 4.4.2) from the scripted SMSCs; a request answered at once is never reported as timed out. Round 9: a response that arrives within the time-to-live must be matched under every schedule; sweeps cancelled during a notification (every overdue request still reported exactly once). The turn-level model has a cancel event (a suspended operation takes no more turns): theorem cancellation_loses_nothing, and the theorems over schedules quantify over cancellations too; the random schedules of the correspondence cancel suspended puts. The turn-level sweep gives up control only where it awaits the hook (theorem control_given_up_only_at_hook): probes and open segments are swept out silently within the turn, and the schedules of the correspondence also start from stores that hold probes and segments; the await points of expired and _remove_expired are regenerated from the source on every run (theorems sweep_awaits_only_the_hook, operations_await_only_the_sweep).',
+    'C14': ' The by-the-next-request clause counts the bind request of a reconnect; exceptions raised under an interleaving are observations. Round 8: error responses without a body (SMPP 3.4 4.4.2) from the scripted SMSCs; a request answered at once is never reported as timed out. Round 9: a response that arrives within the time-to-live must be matched under every schedule; sweeps cancelled during a notification (every overdue request still reported exactly once). The turn-level model has a cancel event (a suspended operation takes no more turns): theorem cancellation_loses_nothing, and the theorems over schedules quantify over cancellations too; the random schedules of the correspondence cancel suspended puts. The turn-level sweep gives up control only where it awaits the hook (theorems control_given_up_only_at_hook, operation_suspended_only_in_hook: a put that is not suspended in a hook call has stored its request): probes and open segments are swept out silently within the turn, and the schedules of the correspondence also start from stores that hold probes and segments; the await points of expired and _remove_expired are regenerated from the source on every run (theorems sweep_awaits_only_the_hook, operations_await_only_the_sweep).',
     'C15': ' Inbound traffic includes delivery receipts of every shape (without dates, dates with seconds, words for numbers, unknown fields), '
            'peer unbind followed by enqueues. Round 8: inbound deliver_sm with schedule / validity strings of every shape; submit_sm PDUs of 33, 40 and 70 KB under back-pressure. Theorem receiver_reactions_accepted: the reactions of the Receiver model (C05) to ANY inbound PDUs are accepted by the monitor. Round 9: every request of an undisturbed bound session is answered; inbound PDUs beyond 64 KiB; a received hook that hangs while the session is given up (no deliver_sm_resp before the hook returned).',
     'C16': ' Sessions with application submits and a peer that stops reading; arrival times are taken where the PDU is read. Regenerated obligation keeper_step_order (the probe is a task of its own). Round 8: sessions whose sequence generator is about to wrap (the probes draw from it).',
